@@ -31,14 +31,40 @@ Print Assumptions C02_curl_rot_hessian_sound.
 (* Dot, Cross, Outer, Convect: distribution over sums, extraction of the commutative factors (for the second,
    differentiated argument of Convect: of the commutative NUMBERS only), canonical order with sign flip (for
    EVERY comparison function sgt), zero short-cuts, cross(u,u)=0.
-   pull_ok = the factors pulled out are scalars ("commutative => scalar", which the library assumes). *)
+   pull_ok = the factors pulled out are scalars ("commutative => scalar", which the library assumes).
+   Dot has its real meaning on mixed shapes (core/algebra.py Dot_2d / Dot_3d): vector . vector (a scalar),
+   matrix . vector (A b)_i = sum_k A_ik b_k and vector . matrix (a B)_i = sum_k a_k B_ki (two DIFFERENT vectors; grad of a
+   vector has entry (i,j) = d_i F_j).  Dot.__new__ imposes its canonical order only when neither factor may be
+   matrix-valued (the library's _may_be_matrix, proved to miss no matrix: C02_may_be_matrix_complete), so the order
+   of dot(grad(F), G) is kept.  shape_stable = the non-commutative part of every summand of an argument has the kind
+   (matrix or not) of the whole argument; it holds of every scalar- or vector-typed argument
+   (C02_dot_guard_holds_of_vectors). *)
 Theorem C02_dot_cross_outer_convect_sound : forall (S : dfield) lg d sgt fuel o a1 a2 r,
   (o = ODot \/ o = OCross \/ o = OOuter \/ o = OConvect) ->
   mk_bil d sgt fuel o a1 a2 = Ok r -> (o = OConvect -> gdf S lg d a2) ->
   pull_ok d a1 = true -> (o <> OConvect -> pull_ok d a2 = true) ->
+  (o = ODot -> shape_stable d a1 = true /\ shape_stable d a2 = true) ->
   geq S lg d r (G2 o a1 a2).
 Proof. exact mk_bil_sound. Qed.
 Print Assumptions C02_dot_cross_outer_convect_sound.
+
+Theorem C02_dot_guard_holds_of_vectors : forall d a,
+  gshape d a = Some ShS \/ gshape d a = Some ShV -> shape_stable d a = true.
+Proof. exact shape_stable_typed_all. Qed.
+Print Assumptions C02_dot_guard_holds_of_vectors.
+
+(* the predicate by which Dot.__new__ decides not to reorder is true of every matrix-valued expression *)
+Theorem C02_may_be_matrix_complete : forall d e, is_mat d e = true -> may_mat e = true.
+Proof. exact may_mat_complete_all. Qed.
+Print Assumptions C02_may_be_matrix_complete.
+
+(* minus(E)[i] / plus(E)[i] (MinusInterfaceOperator.__getitem__ / PlusInterfaceOperator.__getitem__): component i of
+   the restriction of E to THAT side (the side is part of the atom: see C02_getitem_keeps_side) *)
+Theorem C02_getitem_sound : forall (S : dfield) lg d o e i r,
+  is_side_op o = true -> mk_getitem o e i = Ok r ->
+  forall sd i' j', gsem S lg d sd r i' j' = gsem S lg d sd (G1 o e) i O.
+Proof. exact mk_getitem_sound. Qed.
+Print Assumptions C02_getitem_sound.
 
 Theorem C02_inner_sound : forall (S : dfield) lg d sgt fuel a1 a2 r,
   mk_bil d sgt fuel OInner a1 a2 = Ok r ->
@@ -67,7 +93,7 @@ Print Assumptions C02_grad_sound.
 
 (* Div: sums, numeric factors, div(c f F) = c (f div F + F.grad f) for every coefficient c, div(curl) = 0,
    div(a x b) = b.curl a - a.curl b.  div_guard: in f*F the factor f is a scalar admissible for Grad;
-   div(cross) in 3D, div(curl) outside 2D (typing) *)
+   div(cross) in 3D with a, b not matrix-valued, div(curl) outside 2D (typing) *)
 Theorem C02_div_sound : forall (S : dfield) lg d sgt fuel e r,
   mk_div d sgt fuel e = Ok r -> gdf S lg d e -> div_guard d e = true -> geq S lg d r (G1 ODiv e).
 Proof. exact mk_div_sound. Qed.
@@ -175,11 +201,43 @@ Theorem C02_laplace_vector_factor_repaired :
 Proof. exact mk_laplace_repaired_vector. Qed.
 Print Assumptions C02_laplace_vector_factor_repaired.
 
-(* still open: a commutative vector (Laplace(H), Div(Grad(H))) is taken for a scalar *)
+(* repaired: Dot keeps the order of its arguments when one of them may be matrix-valued.  matrix . vector and
+   vector . matrix differ in the free jet; both orders of dot(grad(F), G) are kept as written, two vectors are still
+   put in canonical order *)
+Theorem C02_dot_matrix_vector_order_repaired :
+  let A := G1 OGrad (GVF "F") in let G := GVF "G" in
+  mk_bil 2 str_gt 50 ODot A G = Ok (G2 ODot A G) /\
+  mk_bil 2 str_gt 50 ODot G A = Ok (G2 ODot G A) /\
+  mk_bil 2 str_gt 50 ODot G (GVF "F") = Ok (G2 ODot (GVF "F") G) /\
+  shape_stable 2 A = true /\ shape_stable 2 G = true /\
+  (exists t, gden true 2 SNone (G2 ODot A G) = Some (Vec t)) /\
+  tens_differ (gden true 2 SNone (G2 ODot A G)) (gden true 2 SNone (G2 ODot G A)) = true.
+Proof. exact mk_dot_matrix_vector_repaired. Qed.
+Print Assumptions C02_dot_matrix_vector_order_repaired.
+
+(* historical: the order by str was imposed unconditionally and str(Grad(F)) > str(G): dot(grad(F), G) (matrix . vector,
+   sum_j d_i F_j G_j) was returned as Dot(G, Grad(F)) (vector . matrix, (G . nabla) F) *)
+Theorem C02_dot_matrix_vector_reordered_before_fix :
+  let A := G1 OGrad (GVF "F") in let G := GVF "G" in
+  str_gt A G = true /\ may_mat A = true /\
+  tens_differ (gden true 2 SNone (G2 ODot G A)) (gden true 2 SNone (G2 ODot A G)) = true.
+Proof. exact dot_matrix_vector_reordered_before_fix. Qed.
+Print Assumptions C02_dot_matrix_vector_reordered_before_fix.
+
+Theorem C02_getitem_keeps_side :
+  mk_getitem OPlus (GVF "F") 0 = Ok (G1 OPlus (GComp "F" 0)) /\
+  mk_getitem OMinus (GVF "F") 0 = Ok (G1 OMinus (GComp "F" 0)) /\
+  mk_getitem OMinus (GAdd [GVF "F"; GVF "G"]) 0 = Raise /\
+  tens_differ (gden true 2 SNone (G1 OPlus (GComp "F" 0))) (gden true 2 SNone (G1 OMinus (GComp "F" 0))) = true.
+Proof. exact mk_getitem_keeps_side. Qed.
+Print Assumptions C02_getitem_keeps_side.
+
+(* still open: a commutative vector (Laplace(H), Div(Grad(H))) is taken for a scalar; the cross term of the scalar
+   product rule is then a matrix . vector product with the wrong contraction *)
 Theorem C02_laplace_refuted_commutative_vector :
   let e := GMul [G1 OLaplace (GVF "H"); GSF "f"] in
   laplace_guard 2 e = false /\ exists r, mk_laplace 2 str_gt 50 e = Ok r /\
-  gden true 2 SNone r = None /\ (exists t, gden true 2 SNone (G1 OLaplace e) = Some t).
+  tens_differ (gden true 2 SNone r) (gden true 2 SNone (G1 OLaplace e)) = true.
 Proof. exact mk_laplace_refuted_commutative_vector. Qed.
 Print Assumptions C02_laplace_refuted_commutative_vector.
 
